@@ -38,7 +38,8 @@ impl Prop for C02 {
             attach: 5,
             mapping: 3,
             keyroll: 6,
-            child_remove: 1,
+            child_remove: 3,
+            heal: 4,
             parent_remove: 1,
             ca_delete: 0,
             publisher: 0,
